@@ -52,7 +52,7 @@ def check_append(ctx, R, p, label, gmap, payload_enc, extra_args):
 
 
 def run(ctx, R):
-    R.explanation = ('C10.I: inductive invariant "header = None, or Some(FIX ++ enc(addresses) ++ P)" over the method transformers: each of '
+    R.explanation = R.explanation or ('C10.I: inductive invariant "header = None, or Some(FIX ++ enc(addresses) ++ P)" over the method transformers: each of '
                      'write_payload / write_tlv / write_payloads is summarised under every abstract pre-state (buffer absent x 4 address kinds x length '
                      'Some/None; buffer present and arbitrary) and every Ok outcome must have header = Some(PRE ++ enc(payload)) where PRE is the '
                      'existing buffer or the freshly written fixed part + address block; generic payloads use the WriteToHeader contract proved by '
@@ -60,6 +60,13 @@ def run(ctx, R):
                      'nothing else modified. C10.F: control bytes, addresses and length are never assigned outside constructors / set_length; the '
                      'capacity hint never reaches the contents. build returns the buffer with only bytes 14..16 rewritten (C09.B, re-evaluated). '
                      'C10.T: fallible methods consume self and return io::Result<Self>.')
+    transformers(ctx, R)
+    # the contract used above for generic payloads (writer := old ++ enc(x)) and the Writer it rests on, re-evaluated for every payload kind
+    from rules import C20 as C20mod
+    C20mod.all_encoders(ctx, R)
+
+
+def transformers(ctx, R):
     total = 0
     # constructors
     p = ctx.method(B, 'new')
@@ -177,6 +184,3 @@ def run(ctx, R):
             if f:
                 unchanged_fields(R, 'C10.F', p, 'set_length', f, s, except_=('length',))
     R.floor('method x pre-state transformers checked', total, 20)
-    # the contract used above for generic payloads (writer := old ++ enc(x)) and the Writer it rests on, re-evaluated for every payload kind
-    from rules import C20 as C20mod
-    C20mod.all_encoders(ctx, R)
